@@ -123,6 +123,7 @@ def contracts(rep, regs, model):
     nonempty('at/postleitzahl', 'stdnum/at/postleitzahl.py', 'validate', ['not info(number)'])
     nonempty('be/banks', 'stdnum/be/iban.py', 'validate', ['not info(number)'])
     nonempty('isil', 'stdnum/isil.py', '_is_known_agency', ['bool(results[0][1])'])
+    isil_format(rep, R['isil'])
     nonempty('eu/nace', 'stdnum/eu/nace.py', 'info', ['not i'], depth0_only=False)
     nonempty('iban', 'stdnum/iban.py', 'validate', ['not info[0][1]', 'not _ibandb.info(number)[0][1]'])
     # at/fa: validate() compares i.get('office') and rejects when info is empty
@@ -297,6 +298,47 @@ def contracts(rep, regs, model):
     anchor(rep, 'stdnum/imsi.py', 'info', ["numdb.get('imsi').info(number)"], 'imsi: MCC and MNC levels')
     per_entry(rep, R['imsi'], 'REG.consumer-shape', lambda e: e.depth <= 1 and e.low.isdigit() and e.high.isdigit() and e.low.isascii() and e.length + (e.parent.length if e.parent else 0) < 14,
               'IMSI registry entry is not a digit range on the MCC or MNC level that leaves room for a subscriber number')
+
+
+def isil_format(rep, reg):
+    """REG.consumer-isil: the format gates isil.validate() applies before it asks the registry must let `<agency>-1` through for
+    every registered agency prefix (the gates are evaluated on that witness with the registry lookup standing for "known")."""
+    from ..minieval import run as run_stmts, ev, compiled_patterns, Raised, Undecidable, Unsupported
+    from ..match import strip_doc
+    tree = load_py('stdnum/isil.py')
+    fn = func(tree, 'validate', 'stdnum/isil.py')
+    env0 = dict(compiled_patterns(tree))
+    for st in tree.body:
+        if isinstance(st, ast.Assign) and len(st.targets) == 1 and isinstance(st.targets[0], ast.Name) and st.targets[0].id not in env0:
+            try:
+                env0[st.targets[0].id] = ev(st.value, dict(env0))
+            except (Undecidable, Unsupported):
+                pass
+    hooks = {'compact': lambda x: x, '_is_known_agency': lambda a: True}
+    n = 0
+    for e in reg.entries:
+        if e.depth != 0 or e.low != e.high or not e.props:
+            continue
+        agency = e.low[:-1] if e.low.endswith('$') else e.low
+        witness = agency + '-1'
+        env = dict(env0)
+        env[fn.args.args[0].arg] = witness
+        verdict = None
+        try:
+            out = run_stmts(strip_doc(fn.body), env, hooks)
+            verdict = None if out == witness else 'returns %r' % (out,)
+        except Raised as r:
+            verdict = 'raises %s' % r.name
+        except Unsupported as ex:
+            raise AnalysisError('stdnum/isil.py:%d validate() uses a construct the evaluator does not know: %s' % (fn.lineno, ex))
+        except Undecidable as ex:
+            verdict = 'is not defined (%s)' % ex
+        n += 1
+        rep.check(verdict is None, 'REG.consumer-isil', reg.rel, e.rng, e.text[:100], e.line,
+                  'isil.validate(%r) %s before the registry is asked: no ISIL of the registered agency %r can be accepted' % (witness, verdict, agency),
+                  what='agency %s passes the format gates of isil.validate()' % agency)
+    if n < 20:
+        raise AnalysisError('isil.dat: only %d agency entries found' % n)
 
 
 def consumer_tables(rep, regs):
